@@ -88,3 +88,11 @@ Theorem C07_run_count_uniform : forall s sort_opt count p es,
    ~ In (fst e) (cr_obsolete_tests (snd (clean_run s sort_opt count)))).
 Proof. exact run_count_uniform. Qed.
 Print Assumptions C07_run_count_uniform.
+
+(* non-vacuity: a concrete state (built by running API calls) with a live, a stale and a skip-protected entry meets every
+   hypothesis, in every UPDATE_SNAPS mode and sort setting *)
+Example C07_run_example : forall u sort_opt,
+  let s := RunExample.st u in
+  In RunExample.live (run_entries s sort_opt 1 RunExample.snap RunExample.es) /\
+  ~ In (fst RunExample.live) (cr_obsolete_tests (snd (clean_run s sort_opt 1))).
+Proof. intros u so. destruct (RunExample.theorems_apply u so) as [_ [H1 [H2 _]]]. split; assumption. Qed.
